@@ -602,8 +602,8 @@ class Gen:
             # known finding F20 (WASM: an `if` arm whose value comes out of a tuple built in that arm yields 0 when the
             # other arm is taken): no tuples are created inside `if` arms and `if` is float-typed in this profile
             opts = [("let", 6), ("letif", 2 if d > 0 else 0), ("lettup", 2 if self.p.get("tuples", True) else 0)]
-            if self.p.get("lambdas", True) and d > 0 and not ctx.get("in_lambda"):
-                opts.append(("letlam", 2))
+            if self.p.get("lambdas", True) and d > 0 and ctx.get("lam_depth", 0) < self.p.get("lam_depth", 1):
+                opts.append(("letlam", 2 if not ctx.get("in_lambda") else 5))
             mut = [v for v in ctx["vars"] if v[1] == F and v[2]]
             if self.p.get("assign", True) and mut:
                 opts.append(("set", 2))
@@ -684,7 +684,8 @@ class Gen:
                 cap = ctx["vars"] if self.p.get("closure_assign", False) else [(n, t, False) for (n, t, _) in ctx["vars"]]
                 # (former finding C03-K11 — assigning a FIELD of a captured record inside a closure panicked the compiler —
                 # is repaired: captured records are assignable under `closure_assign` like captured numbers)
-                lctx = dict(ctx, vars=cap + [(q, F, False) for q in ps], allow_state=False, self_type=None, in_lambda=True)
+                lctx = dict(ctx, vars=cap + [(q, F, False) for q in ps], allow_state=False, self_type=None, in_lambda=True,
+                            lam_depth=ctx.get("lam_depth", 0) + 1)
                 body = self.block(F, d - 1, lctx)
                 fname = self.fresh("f")
                 stmts.append(("let", fname, Node("lam", ps, body)))
@@ -883,6 +884,10 @@ PROFILES = {
     # of stateful operations in between, every leaf read back at the end
     # core + one stateless function that calls itself (a literal number of times)
     "rec": dict(avoid_f3=True, recursion=True),
+    # lambdas inside lambdas (a closure created by a closure captures variables of every enclosing level); `_assign`: and assigns them
+    "nested": dict(avoid_f3=True, lam_depth=3, depth=4),
+    "nested_assign": dict(avoid_f3=True, lam_depth=3, depth=4, closure_assign=True),
+    "g6": dict(avoid_f3=True, lam_depth=3, depth=4, closure_assign=True, avoid_g6=False),
     "aggr": dict(gen="aggr"),
     "aggr_nofn": dict(gen="aggr", fn_fields=False),
 }
@@ -927,7 +932,9 @@ def make_case(seed, idx, profile="core", times=24):
         else:
             g = Gen(r, dict(PROFILES[profile]))
         p = g.gen_prog()
-        if est_cost(p) <= MAX_COST and not (PROFILES[profile].get("avoid_g3", True) and stale_capture_risk(p)):
+        if est_cost(p) <= MAX_COST and not (PROFILES[profile].get("avoid_g3", True) and stale_capture_risk(p)) \
+                and not (PROFILES[profile].get("avoid_g6", True) and nested_assign_risk(p)) \
+                and not (PROFILES[profile].get("avoid_g7", True) and bare_self_in_tuple(p)):
             break
     nin = len(p.dsp.params)
     inputs = []
@@ -1294,6 +1301,76 @@ def shadow_renames(p):
         walk(f.body)
     return out
 
+
+
+def bare_self_in_tuple(p):
+    """class predicate of the listed finding G7 (C01): a bare `self` is a component of a tuple literal.  When nothing else
+    constrains the type of `self`, WASM types the component as an unresolved word (i64) and a projection of it that is
+    returned yields the ADDRESS of the slot (`fn dsp(){ let t = (1.0, self, now)  t.1 }`: VM 0, WASM 0x420)."""
+    def walk(n):
+        if not isinstance(n, Node):
+            return False
+        if n.kind == "tup" and any(isinstance(x, Node) and x.kind == "self" for x in n.a[0]):
+            return True
+        return any(walk(ch) for _, ch in children(n))
+    return any(walk(f.body) for f in list(p.fns) + [p.dsp])
+
+
+def nested_assign_risk(p):
+    """class predicate of the listed finding G6 (upvalues of upvalues are copies): a variable that is ASSIGNED somewhere in its
+    function (by the function itself or inside any closure) is mentioned inside a lambda nested at least TWO lambda levels below
+    its binder.  mirgen hands the inner closure a register of the middle function holding a snapshot (reads) and resolves an
+    assignment two levels up against the wrong frame (writes)."""
+    import re
+    ident = re.compile(r"^[a-z]+[0-9]+$")
+
+    def flat(x, out):
+        if isinstance(x, str):
+            if ident.match(x):
+                out.append(x)
+        elif isinstance(x, (list, tuple)):
+            for y in x:
+                flat(y, out)
+        return out
+
+    def assigned(n, acc):
+        if isinstance(n, Node):
+            if n.kind in ("set", "setf", "recupd"):
+                acc.add(n.a[0])
+            for _, ch in children(n):
+                assigned(ch, acc)
+        return acc
+
+    def bind(n, d, depthof):
+        if not isinstance(n, Node):
+            return
+        if n.kind in ("let", "lett", "letp", "letr", "letrp"):
+            for nm in flat(n.a[0], []):
+                depthof[nm] = d
+        if n.kind == "lam":
+            for nm in n.a[0]:
+                depthof[nm] = d + 1
+            bind(n.a[1], d + 1, depthof)
+            return
+        for _, ch in children(n):
+            bind(ch, d, depthof)
+
+    def risky(n, d, depthof, asg):
+        if not isinstance(n, Node):
+            return False
+        if n.kind in ("var", "set", "setf", "recupd") and isinstance(n.a[0], str):
+            if n.a[0] in asg and d - depthof.get(n.a[0], 0) >= 2:
+                return True
+        if n.kind == "lam":
+            return risky(n.a[1], d + 1, depthof, asg)
+        return any(risky(ch, d, depthof, asg) for _, ch in children(n))
+
+    for f in list(p.fns) + [p.dsp]:
+        depthof = {a: 0 for a in f.params}
+        bind(f.body, 0, depthof)
+        if risky(f.body, 0, depthof, assigned(f.body, set())):
+            return True
+    return False
 
 
 def stale_capture_risk(p):
